@@ -24,6 +24,28 @@ def cases(draw):
     """Scenarios of the shared generator; in a third of them the small-objective threshold is placed next to the values
     the run will actually see (a multiple of f(x0)), so that the 'sufficiently small' exit fires at every stage of a run -
     including in the middle of a sampling batch - and a threshold test that is slightly off has something to bite on."""
+    if draw(st.integers(0, 11)) == 0:
+        # noise floor: start at the least-squares minimiser of a noisy linear problem with f* > 0 and put the small-objective
+        # threshold a little below f*: the run cannot reach it, but a noisy re-evaluation (restart, extra sample) can
+        n = draw(st.integers(1, 3))
+        m = n + draw(st.integers(1, 2))
+        A = np.array(draw(sc.draw_matrix(m, n)), dtype=float)
+        b = np.array([draw(sc.g8) + 0.5 for _ in range(m)], dtype=float)
+        xs = np.linalg.lstsq(A, b, rcond=None)[0]
+        f0 = float(np.sum((A.dot(xs) - b) ** 2))
+        if f0 > 1e-6:
+            restart = draw(st.sampled_from(["hard-new-rk", "hard-new-rk", "hard-old-rk", "soft"]))
+            up = {"restarts.use_restarts": True, "model.abs_tol": f0 * draw(st.sampled_from([0.97, 0.9, 0.8])),
+                  "logging.save_diagnostic_info": True, "logging.save_poisedness": False,
+                  "restarts.max_unsuccessful_restarts": draw(st.sampled_from([2, 3]))}
+            if restart != "soft":
+                up["restarts.use_soft_restarts"] = False
+                if restart == "hard-new-rk":
+                    up["restarts.hard.use_old_rk"] = False
+            return {"n": n, "m": m, "fam": "lin", "A": A.tolist(), "b": b.tolist(), "x0": [float(v) for v in xs], "lower": None, "upper": None,
+                    "scaling": False, "npt": n + 1, "rhobeg": 0.1, "rhoend": 10.0 ** -draw(st.sampled_from([2, 3])), "maxfun": draw(st.sampled_from([30, 60])),
+                    "noise": {"seed": draw(st.integers(0, 2 ** 20)), "mult": draw(st.sampled_from([0.03, 0.1])), "add": 0.0},
+                    "up": up, "np_seed": 0, "tags": ["noise-floor", "restarts:" + restart]}
     c = draw(sc.scenarios(PROF))
     if c["fam"] != "script" and draw(st.integers(0, 2)) == 0:
         lo, up = sc.user_bounds(c)
